@@ -284,6 +284,22 @@ ob("stream_objstm_slice_hostile", ["C14", "C01"], "stream.rs", unwind=10, cuts=X
    bound="2 members, ARBITRARY usize offsets and /First, every index: no panic")
 
 # ---------------------------------------------------------------------------------------------------------------------
+# primitive.rs: C04 (string serialisation against the reference decoders)
+# ---------------------------------------------------------------------------------------------------------------------
+for n in (0, 1, 2, 3):
+    ob("prim_string_ser_n%d" % n, ["C04"], "primitive.rs", unwind=2 * n + 6, cuts=X1_ALL, stubs=[FMT_STUB], timeout=1200, mem_gb=12,
+       tier="quick" if n <= 2 else "thorough", functions=["primitive::PdfString::serialize"],
+       bound="every string of %d bytes: the serialised token decodes to the same bytes under the reference literal/hex string "
+             "decoder; serialising does not panic" % n)
+
+for h, t in (("prim_name_ser_n1", "quick"), ("prim_name_ser_n2", "quick"), ("prim_name_ser_utf8", "thorough")):
+    ob(h, ["C04"], "primitive.rs", unwind=9, cuts=X1_ALL, stubs=[FMT_STUB], timeout=1800, mem_gb=12, tier=t,
+       functions=["primitive::serialize_name"],
+       bound="%s: the serialised name token consists of regular characters only and decodes (#xx) to the same bytes; no panic" %
+             {"prim_name_ser_n1": "every 1-character ASCII name", "prim_name_ser_n2": "every 2-character ASCII name",
+              "prim_name_ser_utf8": "every name made of one 2-byte UTF-8 character"}[h])
+
+# ---------------------------------------------------------------------------------------------------------------------
 # parser/mod.rs (experimental: one level of the object parser)
 # ---------------------------------------------------------------------------------------------------------------------
 ob("typesprobe_descent", ["X98"], "types_probe.rs", unwind=4, cuts=X1_ERR, timeout=300, functions=[], bound="probe")
